@@ -74,6 +74,38 @@ def h_levellimit(P, offered, existing, L, distinct=False):
         P.oblige("levellimit.fills_free_slots_when_distinct", len(kept) == want)
 
 
+def h_levellimit3(P, L):
+    """Three levels: candidates from the root (target level 1) and from a level-1 deme (target level 2) in the same round; each level
+    is limited independently."""
+    from pyhms.sprout.sprout_filters import LevelLimit
+    from ._tree import count_true
+
+    prob, F, maximize, bounds = mk_problem(P, 1)
+    root = mk_deme("root", 0)
+    mids = [mk_deme(str(j), 1, active=P.bool(f"act1_{j}")) for j in range(2)]
+    leaves = [mk_deme(f"0/{j}", 2, active=P.bool(f"act2_{j}")) for j in range(2)]
+    root._children = list(mids)
+    mids[0]._children = list(leaves)
+    P.assume(count_true([m._active for m in mids]) <= L)
+    P.assume(count_true([l._active for l in leaves]) <= L)
+    offered = {root: mk_inds(P, prob, 2, 1, "r"), mids[0]: mk_inds(P, prob, 2, 1, "m")}
+    tree = mk_tree([[root], mids, leaves])
+    out = LevelLimit(L)(_cands(offered), tree)
+    for parent, level_demes in ((root, mids), (mids[0], leaves)):
+        kept = out[parent].individuals
+        mine = offered[parent]
+        n_active = count_true([d._active for d in level_demes])
+        P.oblige("levellimit.subset", all(any(k is x for x in mine) for k in kept))
+        P.oblige("C08.levellimit_free_slots", len(kept) + n_active <= L)
+        dropped = [x for x in mine if not any(x is k for k in kept)]
+        for x in dropped:
+            for k in kept:
+                P.oblige("levellimit.keeps_best", lnot(strictly_better(x.fitness, k.fitness, maximize)))
+        # a level with room for all its candidates loses none of them, whatever happens on the other level
+        roomy = (n_active + len(mine)) <= L
+        P.oblige("levellimit.levels_are_independent", implies(roomy, len(kept) == len(mine)) if is_sym(roomy) else ((not roomy) or len(kept) == len(mine)))
+
+
 def h_skipsame(P, n_cands, n_seeds, d=1):
     from pyhms.core.individual import Individual
     from pyhms.sprout.sprout_filters import SkipSameSprout
@@ -211,6 +243,8 @@ def cases(tier):
             for distinct in (False, True):
                 cs.append(dict(name=f"levellimit.off{offered}.ex{existing}.L{L}.{'distinct' if distinct else 'ties'}", fn=h_levellimit,
                                params=dict(offered=offered, existing=existing, L=L, distinct=distinct), weight=sum(offered) + existing, **R))
+    for L in (1, 2, 3):
+        cs.append(dict(name=f"levellimit.three_levels.L{L}", fn=h_levellimit3, params=dict(L=L), weight=8, **R))
     for nc, ns, d in [(1, 1, 1), (2, 2, 1), (2, 1, 2)]:
         cs.append(dict(name=f"skipsame.c{nc}.s{ns}.d{d}", fn=h_skipsame, params=dict(n_cands=nc, n_seeds=ns, d=d), **R))
     cs.append(dict(name="generators.best", fn=h_generators, params=dict(gen="best", n_pop=3), weight=5, **R))
